@@ -1,7 +1,7 @@
 #!/bin/bash
 # usage: tools/sens.sh <patch.diff> <Cxx> [<Cyy> ...]   applies the patch to /repo, runs the quick checks, reverts.
 set -u
-patch=$1; shift
+patch=$(realpath $1); shift
 cd /repo || exit 2
 if ! git diff --quiet; then echo "repo dirty"; exit 2; fi
 git apply "$patch" || { echo "patch does not apply"; exit 2; }
